@@ -375,10 +375,10 @@ def attach_all(run, rt):
     import cnvlib.commands as K
     from cnvlib.vary import VariantArray as VA
     import cnvlib.vary as V
-    traced = [("vcfio.read_vcf", vcfio.read_vcf), ("vcfio._choose_samples", vcfio._choose_samples), ("vcfio._parse_pedigrees", vcfio._parse_pedigrees),
-              ("vcfio._parse_records", vcfio._parse_records), ("vcfio._extract_genotype", vcfio._extract_genotype), ("vcfio._get_alt_count", vcfio._get_alt_count),
-              ("cmdutil.load_het_snps", U.load_het_snps), ("vary.baf_by_ranges", VA.baf_by_ranges), ("vary.heterozygous", VA.heterozygous),
-              ("vary._mirrored_baf", V._mirrored_baf), ("vary._tumor_boost", V._tumor_boost), ("vary.zygosity_from_freq", VA.zygosity_from_freq)]
+    traced = [("vcfio.read_vcf", rt.opt(vcfio, "read_vcf")), ("vcfio._choose_samples", rt.opt(vcfio, "_choose_samples")), ("vcfio._parse_pedigrees", rt.opt(vcfio, "_parse_pedigrees")),
+              ("vcfio._parse_records", rt.opt(vcfio, "_parse_records")), ("vcfio._extract_genotype", rt.opt(vcfio, "_extract_genotype")), ("vcfio._get_alt_count", rt.opt(vcfio, "_get_alt_count")),
+              ("cmdutil.load_het_snps", rt.opt(U, "load_het_snps")), ("vary.baf_by_ranges", rt.opt(VA, "baf_by_ranges")), ("vary.heterozygous", rt.opt(VA, "heterozygous")),
+              ("vary._mirrored_baf", rt.opt(V, "_mirrored_baf")), ("vary._tumor_boost", rt.opt(V, "_tumor_boost")), ("vary.zygosity_from_freq", rt.opt(VA, "zygosity_from_freq"))]
     rt.attach(T, "read", name="tabio.read[vcf]", pre=pre_read, post=post_read, on_exc=exc_read)
     rt.attach(vcfio, "_choose_samples", name="vcfio._choose_samples", post=post_choose)
     rt.attach(U, "load_het_snps", name="cmdutil.load_het_snps", pre=pre_het, post=post_het, also=[(K, "load_het_snps")])
